@@ -210,6 +210,20 @@ def installed(streams, clock=None, sandbox=None, capture=None, sync_threads=True
     fresh_validation_state()
     fresh_class_state()
     fresh_function_defaults()
+    # Fuel: one op may start at most FUEL merges.  Links that lead into their own copies make
+    # finalize descend without end; a count (not a clock) ends such a run the same way on replay.
+    import odml.section as _section
+    fuel = [None]
+    real_merge = _section.BaseSection.merge
+
+    def counted_merge(self, *args, **kwargs):
+        if fuel[0] is not None:
+            fuel[0] -= 1
+            if fuel[0] < 0:
+                raise Runaway("more than %d merges in one operation" % FUEL)
+        return real_merge(self, *args, **kwargs)
+    counted_merge.__wrapped__ = real_merge
+    patch(_section.BaseSection, "merge", counted_merge)
     if sync_threads:
         from .threads import SyncThreading
         sync = SyncThreading()
@@ -227,7 +241,9 @@ def installed(streams, clock=None, sandbox=None, capture=None, sync_threads=True
     warnings.simplefilter("always")
     capture.warnings = wlist
     try:
-        yield Env(streams, clock, sandbox, capture)
+        env = Env(streams, clock, sandbox, capture)
+        env.fuel = fuel
+        yield env
     finally:
         cm.__exit__(None, None, None)
         sys.stdout, sys.stderr = old_out, old_err
@@ -362,6 +378,13 @@ def fresh_validation_state():
             _restore_container(live, saved)
         else:
             setattr(Validation, name, _copy_container(saved))
+
+
+FUEL = 1000
+
+
+class Runaway(BaseException):
+    """An operation of the library keeps merging (see installed): the run is abandoned."""
 
 
 class Env(object):
